@@ -167,7 +167,15 @@ class Gen:
             if x < cfg["p_choice"] and "choice" not in self.q:
                 ch = Group("choice", *self.group_occurs())
                 for _ in range(r.randrange(2, 4)):
-                    ch.items.append(self.make_leaf(fidx, taken, in_choice=True))
+                    if r.random() < 0.25 and "sequence-in-choice" not in self.q:
+                        # a branch that is a sequence of several elements
+                        sq = Group("sequence", 1, 1)
+                        for _ in range(r.randrange(1, 3)):
+                            sq.items.append(self.make_leaf(fidx, taken))
+                        ch.items.append(sq)
+                        self.features.add("sequence-in-choice")
+                    else:
+                        ch.items.append(self.make_leaf(fidx, taken, in_choice=True))
                 items.append(ch)
                 self.features.add("choice")
             elif x < cfg["p_choice"] + cfg["p_nested_seq"] and depth < 2 and "nested-seq" not in self.q:
